@@ -309,7 +309,7 @@ D_CORRUPTIONS = [
     'nc-altered', 'cnonce-altered', 'qop-altered', 'qop-empty', 'qop-unknown', 'alg-unknown', 'alg-case',
     'quote-drop', 'quote-add', 'unquoted-all', 'empty-value', 'no-params', 'garbage', 'rfc2047', 'realm-field',
     'high-bytes', 'spaces', 'no-header', 'stale-and-wrong-password', 'latin1-client',
-    'attack-ha1-none', 'attack-empty-password-user', 'attack-response-prefix',
+    'attack-ha1-none', 'attack-empty-password-user', 'attack-response-prefix', 'attack-override-field',
 ]
 B_CORRUPTIONS = [
     'wrong-password', 'unknown-user', 'empty-password', 'no-colon', 'bad-padding', 'bad-chars', 'non-ascii',
@@ -591,6 +591,26 @@ class C19(core.Check):
             henc = 'latin-1'
         elif kind == 'attack-empty-password-user':
             user, use_pw = resp_user, _ = 'empty', ''
+        # a response computed over something other than this request, with the header itself naming - in a field
+        # no RFC defines - the value it was computed over: nothing in the header may stand in for the request's
+        # method, target, the stored secret or the server key
+        extras = []
+        if kind == 'attack-override-field':
+            sub = rng.choice(['method', 'method', 'uri', 'password', 'key'])
+            if sub == 'method':
+                resp_method = rng.choice([m for m in METHODS if m != method])
+                extras = [[n, resp_method, rng.random() < .7] for n in rng.choice(
+                    [['method'], ['http_method'], ['method', 'http_method'], ['Method'], ['request-method'], ['METHOD']])]
+            elif sub == 'uri':
+                resp_uri = uri + 'x'
+                extras = [[n, resp_uri, True] for n in rng.choice([['request_uri'], ['digest-uri'], ['path'], ['URI']])]
+            elif sub == 'password':
+                use_pw = pw + 'x'
+                extras = [rng.choice([['password', use_pw, True], ['ha1', md5u('%s:%s:%s' % (user, realm, use_pw)), True],
+                                      ['HA1', md5u('%s:%s:%s' % (user, realm, use_pw)), True]])]
+            else:
+                nonce_key = key + 'x'
+                extras = [[n, nonce_key, True] for n in rng.choice([['key'], ['nonce_key'], ['secret']])]
         nonce = '%s:%s' % (ts, md5u('%s:%s:%s' % (ts, nonce_realm, nonce_key)))
         if kind == 'method-mismatch':
             resp_method = rng.choice([m for m in METHODS if m != method] + [method.swapcase()])
@@ -614,6 +634,8 @@ class C19(core.Check):
             fields += [['qop', qop, False], ['nc', nc, False], ['cnonce', cnonce, True]]
         if rng.random() < .3:
             fields.append(['opaque', '5ccc069c403ebaf9f0171e9517f40e41', True])
+        for x in extras:
+            fields.insert(rng.randrange(len(fields) + 1), x)
         if rng.random() < .3:
             rng.shuffle(fields)
 
